@@ -69,7 +69,24 @@ def gen_inputs(f, contract, module, count=12, scope=3, seed=0, timeout_ms=4000):
     c = copy.copy(contract)
     c.float_mode = "R"
     ex = symex.Exec(f, c, module, {})
-    ex.setup_params()
+    fparams = list(f.params)
+    if c.py_mode:
+        # Python region: the symbolic inputs are the typed names of the contract (self.<attr>, parameters, ghost inputs)
+        from .front_cy import T as _T, scalar_type as _st
+        fparams = []
+        for nm, kind in c.inputs.items():
+            v = ex.make_input(nm, kind)
+            ex.vars[nm] = v
+            if v.k == "arr":
+                fparams.append((nm, _T("arr", elem=v.t.elem, ndim=v.t.ndim)))
+            elif v.k == "int":
+                fparams.append((nm, _st("long")))
+            elif v.k == "float":
+                fparams.append((nm, _st("double")))
+            else:
+                raise Skip(f"input {nm} of kind {kind}")
+    else:
+        ex.setup_params()
     ex.entry_vars = dict(ex.vars)
     ex.entry_heap = dict(ex.heap)
     facts = list(ex.facts)
@@ -77,7 +94,7 @@ def gen_inputs(f, contract, module, count=12, scope=3, seed=0, timeout_ms=4000):
         facts.append(ex.spec(r))
     rng = random.Random(seed)
     out, seen = [], set()
-    params = [(pn, pt) for pn, pt in f.params if pn not in c.bind]
+    params = [(pn, pt) for pn, pt in fparams if pn not in c.bind]
     arrs = [(pn, ex.vars[pn].t) for pn, pt in params if pt.kind == "arr"]
     tries = 0
     while len(out) < count and tries < count * 4:
@@ -113,9 +130,9 @@ def gen_inputs(f, contract, module, count=12, scope=3, seed=0, timeout_ms=4000):
                 prefs.append(d == rng.choice([S, S, S - 1, 1, 0] if S > 1 else [1, 0]))
         for pn, pt in params:
             if pt.kind == "int":
-                prefs.append(z3.Int(pn) == rng.choice(dom[1:]))
+                prefs.append(ex.vars[pn].t == rng.choice(dom[1:]))
             elif pt.kind == "float":
-                prefs.append(z3.Const(pn, ex.fm.F) == z3.RealVal(repr(rng.choice(FLOAT_POOL))))
+                prefs.append(ex.vars[pn].t == z3.RealVal(repr(rng.choice(FLOAT_POOL))))
         eprefs = []
         for pn, a in arrs:
             isf = a.elem is not None and a.elem.kind == "float"
@@ -147,7 +164,7 @@ def gen_inputs(f, contract, module, count=12, scope=3, seed=0, timeout_ms=4000):
         if m is None:
             continue
         try:
-            inp = _read_inputs(ex, f, c, m, params)
+            inp = _read_inputs(ex, f, c, m, params, fparams)
         except Skip:
             continue
         key = repr(sorted((k, (v.tolist() if isinstance(v, np.ndarray) else v)) for k, v in inp.items()))
@@ -163,9 +180,9 @@ def _indices(shape):
     return list(itertools.product(*[range(n) for n in shape]))
 
 
-def _read_inputs(ex, f, c, m, params):
+def _read_inputs(ex, f, c, m, params, fparams=None):
     inp = {}
-    for pn, pt in f.params:
+    for pn, pt in (fparams if fparams is not None else f.params):
         if pn in c.bind:
             inp[pn] = c.bind[pn] if not callable(c.bind[pn]) else None
             continue
@@ -323,6 +340,15 @@ class _EqRewrite(ast.NodeTransformer):
             left = right
         return parts[0] if len(parts) == 1 else ast.BoolOp(ast.And(), parts)
 
+    def visit_Call(self, n):
+        self.generic_visit(n)
+        # the spec connectives are lazy (a false antecedent / an untaken branch is never evaluated)
+        if isinstance(n.func, ast.Name) and n.func.id == "implies" and len(n.args) == 2:
+            return ast.BoolOp(ast.Or(), [ast.UnaryOp(ast.Not(), n.args[0]), n.args[1]])
+        if isinstance(n.func, ast.Name) and n.func.id == "ite" and len(n.args) == 3:
+            return ast.IfExp(n.args[0], n.args[1], n.args[2])
+        return n
+
     def visit_BinOp(self, n):
         self.generic_visit(n)
         if isinstance(n.op, ast.Div):      # the spec's `/` is real division with C semantics for zero (no exception)
@@ -377,6 +403,9 @@ class SpecEval:
             "sqrt": lambda x: math.sqrt(x) if x >= 0 else float("nan"), "isnan": lambda x: _isfloat(x) and math.isnan(x),
             "all": all, "any": any, "range": range, "len": len, "int": int, "float": float, "True": True, "False": False,
             "extent": lambda x: int(np.size(x)), "contiguous": lambda x: bool(x.flags["C_CONTIGUOUS"]),
+            "fsum": lambda f, n: sum(f(i) for i in range(int(n))),
+            "lastnz": lambda f, n: max([i for i in range(int(n)) if f(i) != 0], default=-1),
+            "log": lambda x: math.log(x) if x > 0 else float("nan"),
             "rowsum": lambda A, a: int(np.asarray(A)[a].sum()), "mult": lambda L, j, k: list(L[j]).count(k), "floor": math.floor, "fabs": abs, "INT32": 2147483647,
         }
         for g in self.c.ghost:
@@ -675,13 +704,17 @@ def unjson(v):
 
 def _rtc_worker(args):
     job, src_dir, count, seed, extra = args
+    from . import npvec  # noqa: F401
+    if job.lang == "py":
+        return run_rtc_py(job, src_dir, count=count, seed=seed, extra_inputs=extra)
     return run_rtc(job, src_dir, count=count, seed=seed, extra_inputs=extra)
 
 
 def run_layer(jobs, src_dir, tier="quick", seed=0, workers=10, only=None, extra=None):
     """Run-time contract check of every Cython kernel job with a postcondition.  -> list of run_rtc results"""
     from concurrent.futures import ProcessPoolExecutor
-    sel = [j for j in jobs if j.lang == "cy" and (j.contract.ensures or getattr(j, "only_kinds", None))
+    sel = [j for j in jobs if ((j.lang == "cy" and (j.contract.ensures or getattr(j, "only_kinds", None))) or
+                               (j.lang == "py" and getattr(j.contract, "vectors", False) and j.contract.ensures))
            and (only is None or j.tag in only)]
     if not sel:
         return []
@@ -691,3 +724,115 @@ def run_layer(jobs, src_dir, tier="quick", seed=0, workers=10, only=None, extra=
         return [_rtc_worker(tasks[0])]
     with ProcessPoolExecutor(max_workers=min(workers, len(tasks))) as ex:
         return list(ex.map(_rtc_worker, tasks))
+
+
+# ---------------------------------------------------------------- Python regions with a stub object (formula contracts)
+
+_CALLER_PY = r'''
+import pickle, sys, copy, re, inspect, importlib
+import numpy as np
+mod, cls, meth, inp_path, out_path = sys.argv[1:6]
+M = importlib.import_module(mod)
+C = getattr(M, cls)
+F = getattr(C, meth)
+cases = pickle.load(open(inp_path, "rb"))
+res = []
+for inp, stubs, bind in cases:
+    obj = C.__new__(C)
+    for k, v in inp.items():
+        if k.startswith("self."):
+            object.__setattr__(obj, k[5:], copy.deepcopy(v))
+    for mname, src in stubs.items():
+        object.__setattr__(obj, mname, (lambda a: (lambda *x, **y: a.copy()))(inp[src]))
+    kwargs = {}
+    for pn in list(inspect.signature(F).parameters)[1:]:
+        if pn in inp:
+            kwargs[pn] = copy.deepcopy(inp[pn])
+        elif pn in bind:
+            kwargs[pn] = bind[pn]
+    try:
+        with np.errstate(all="ignore"):
+            r = F(obj, **kwargs)
+        res.append({"ok": True, "result": r, "after": {k: getattr(obj, k[5:]) for k in inp if k.startswith("self.")}})
+    except BaseException as e:
+        res.append({"ok": False, "error": f"{type(e).__name__}: {e}"})
+pickle.dump({"res": res}, open(out_path, "wb"))
+'''
+
+
+class _Stub:
+    pass
+
+
+def run_rtc_py(job, src_dir, count=12, seed=0, extra_inputs=()):
+    """Run-time check of a formula contract on a Python method: the object is a bare instance carrying the typed
+    `self.<attr>` inputs, methods named in call_facts return the ghost input they are specified to equal."""
+    import re
+    from .front_py import parse_region
+    t0 = time.time()
+    c = job.contract
+    out = {"tag": job.tag, "func": job.func, "cases": 0, "evaluated": 0, "holds": 0, "violated": [], "skipped": {},
+           "error": None, "inapplicable": None, "nonterminating": 0, "raised": {}}
+    try:
+        f = parse_region(build.src(*job.module.split("/")), job.func, c.region)
+        m = {"funcs": {}, "cfuncs": {}, "externs": {}, "module_vars": {}}
+        cases = list(extra_inputs) + gen_inputs(f, c, m, count=count, seed=seed)
+        if not cases:
+            out["inapplicable"] = "no input satisfying the requires found in the small scope"
+            return out
+        stubs = {}
+        for fn, facts in c.call_facts.items():
+            for e in facts.get("ensures", []):
+                mm = re.match(r"same_array\(result,\s*(\w+)\)", e)
+                if mm and fn.startswith("self."):
+                    stubs[fn[5:]] = mm.group(1)
+        bind = {k: v for k, v in c.bind.items() if not callable(v)}
+        cls, meth = job.func.split(".")[:2]
+        modname = "pyunicorn." + job.module[:-3].replace("/", ".")
+        with tempfile.TemporaryDirectory(prefix="pvc-rtc-") as d:
+            ip, op, sp = os.path.join(d, "in.pkl"), os.path.join(d, "out.pkl"), os.path.join(d, "caller.py")
+            pickle.dump([(cs, stubs, bind) for cs in cases], open(ip, "wb"))
+            open(sp, "w").write(_CALLER_PY)
+            env = dict(os.environ, PYTHONPATH=src_dir, OMP_NUM_THREADS="1", OPENBLAS_NUM_THREADS="1")
+            p = subprocess.run(["/venv/bin/python", sp, modname, cls, meth, ip, op], capture_output=True, text=True,
+                               timeout=120, env=env)
+            if not os.path.exists(op):
+                out["error"] = "caller failed: " + p.stderr[-800:]
+                return out
+            res = pickle.load(open(op, "rb"))["res"]
+        out["cases"] = len(cases)
+        for inp, r in zip(cases, res):
+            if not r["ok"]:
+                kind = r["error"].split(":")[0]
+                out["raised"][kind] = out["raised"].get(kind, 0) + 1
+                continue
+            selfobj = _Stub()
+            env_in = {}
+            for k, v in inp.items():
+                if k.startswith("self."):
+                    setattr(selfobj, k[5:], v)
+                else:
+                    env_in[k] = v
+            env_in["self"] = selfobj
+            env_in.update(bind)
+            for clause, st, detail in check_case(c, env_in, {}, r["result"]):
+                if clause.startswith("(frame)"):
+                    continue
+                if st == "skipped":
+                    out["skipped"][clause] = detail
+                    continue
+                out["evaluated"] += 1
+                if st == "holds":
+                    out["holds"] += 1
+                else:
+                    out["violated"].append({"clause": clause, "detail": detail,
+                                            "inputs": {k: jsonable(v) for k, v in inp.items()}, "result": jsonable(r["result"])})
+    except Skip as s_:
+        out["inapplicable"] = str(s_)
+    except symex.Undecidable as s_:
+        out["inapplicable"] = f"outside the encodable subset: {s_}"
+    except Exception:
+        import traceback
+        out["error"] = traceback.format_exc()[-1500:]
+    out["wall"] = round(time.time() - t0, 2)
+    return out
